@@ -258,8 +258,9 @@ def run(ctx):
             x1, x2 = kv1 / kir * tau, kv2 / kir * tau
             E1, E2 = spe.expn(2, x1), spe.expn(2, x2)
             for x, e in zip(np.concatenate([x1, x2]), np.concatenate([E1, E2])):
-                if not (0 <= e <= math.exp(-x) * (1 + 1e-12)):
-                    ctx.violation('oracle-E2', 'scipy expn(2,%r)=%r violates 0<=E2<=exp(-x)' % (x, e), replay=prm)
+                if not (0 <= e and e * (1 + x) <= math.exp(-x) * (1 + 1e-12)):
+                    ctx.violation('oracle-E2', 'scipy expn(2,%r)=%r violates 0<=E2<=exp(-x)/(1+x) (the premise of '
+                                  'C12_guillot_positive)' % (x, e), replay=prm)
             if np.all(np.isfinite(prof)):
                 rows = C.clist(['(%s, %s, %s)' % (C.iv(P[j]), C.iv(E1[j]), C.iv(E2[j])) for j in range(n)])
                 e_gu.append('run_guillot %s %s %s %s %s %s %s %s' % (C.iv(kir), C.iv(kv1), C.iv(kv2), C.iv(alpha),
